@@ -126,7 +126,7 @@ class Ctx:
             return fn(*a, **kw)
         except PropertyViolation:
             raise
-        except Exception as e:  # noqa: BLE001 - converted, not swallowed
+        except (Exception, SystemExit) as e:  # noqa: BLE001 - converted, not swallowed
             import traceback
             tb = traceback.extract_tb(e.__traceback__)
             where = ""
